@@ -96,10 +96,12 @@ func writeDumpCheckpoint(outputDir string, value dumpCheckpoint) error {
 	if err := os.WriteFile(tempPath, payload, 0o600); err != nil {
 		return fmt.Errorf("write dump checkpoint temp file: %w", err)
 	}
+	verifCrashPoint("checkpoint.temp.written")
 	if err := os.Rename(tempPath, finalPath); err != nil {
 		_ = os.Remove(tempPath)
 		return fmt.Errorf("publish dump checkpoint: %w", err)
 	}
+	verifCrashPoint("checkpoint.renamed")
 
 	return nil
 }
